@@ -5,7 +5,7 @@
    the relativization choices). *)
 From DV Require Import Base.Prelude Model.NameM Model.TokM Model.RdTextM.
 From DV Require Import Proofs.NameValid Proofs.NameText Proofs.TokEsc Proofs.TokTxt Proofs.TokWords
-     Proofs.TokDec Proofs.TokHex Proofs.TokShape Proofs.TokGeneric Proofs.RdTextName.
+     Proofs.TokDec Proofs.TokHex Proofs.TokShape Proofs.TokGeneric Proofs.TokUtf8 Proofs.RdTextName.
 Open Scope Z_scope.
 
 Definition is_rest (f : tfield) : bool :=
@@ -217,23 +217,28 @@ Proof.
   - (* FTxtRest *)
     destruct Hv as (Hne & Hss). inversion Hp; subst ftext. inversion He; subst v'. specialize (HR2 eq_refl).
     destruct l as [|s ss]; [congruence|]. inversion Hss as [|? ? [Hb Hl] Hss']; subst.
-    assert (Hbss : Forall (fun s => all_bytes s = true) ss).
-    { eapply Forall_impl; [|exact Hss']. intros ? [? _]; assumption. }
-    rewrite txt_to_text_tail.
-    destruct (get0_quoted_q q bl s (txt_tail ss R) Hbl Hb) as (he & E).
-    exists (mkTok tQUOTED (escapify s) he None), (stq true (txt_tail ss R)).
+    set (u8 := s_txt_utf8 sty).
+    assert (HB : Forall2 body_ok (map (txt_body u8) (s :: ss)) (s :: ss)).
+    { clear - Hss. induction Hss as [|x l [Hx _] _ IH]; cbn [map]; constructor; [apply txt_body_ok, Hx|exact IH]. }
+    assert (HL : Forall (fun s => zlen s <= 255) (s :: ss)).
+    { eapply Forall_impl; [|exact Hss]. intros ? [_ ?]; assumption. }
+    assert (HQ : Forall qbody (map (txt_body u8) ss)).
+    { inversion HB as [|? ? ? ? _ HB']; subst. clear - HB'. induction HB' as [|? ? ? ? [Hq _] _ IH]; constructor; assumption. }
+    pose proof (txt_body_ok u8 s Hb) as [Hq0 _].
+    unfold txt_to_text_style. cbn [map]. rewrite txt_join_tail.
+    destruct (get0_quoted_body_q q bl (txt_body u8 s) (txt_tail_b (map (txt_body u8) ss) R) Hbl Hq0) as (he & E).
+    exists (mkTok tQUOTED (txt_body u8 s) he None), (stq true (txt_tail_b (map (txt_body u8) ss) R)).
     split; [exact E|]. split; [reflexivity|]. split; [repeat split; reflexivity|]. split.
     { unfold stq. cbn [inp pend app]. rewrite !app_length. cbn [length]. rewrite app_length. cbn [length]. lia. }
-    intros stX HX HL.
-    destruct (get_remaining_tail ss Hbss R (S (length (inp stX))) [mkTok tQUOTED (escapify s) he None]
-                (match HR2 with or_introl e => or_introl e | or_intror e => or_intror e end))
+    intros stX HX HL2.
+    destruct (get_remaining_tail_b _ HQ R (S (length (inp stX))) [mkTok tQUOTED (txt_body u8 s) he None] HR2)
       as (toks & te & st & HF & Hte & Hu & E2).
-    { pose proof (txt_tail_length ss R). unfold stq in HL. cbn [inp pend app length] in HL. lia. }
+    { pose proof (txt_tail_b_length (map (txt_body u8) ss) R). unfold stq in HL2. cbn [inp pend app length] in HL2. lia. }
     exists st. split; [|split; [discriminate|intros _; exists te; split; assumption]].
     cbn [parse_field]. unfold txt_from_text, get_remaining, rem_fuel. rewrite grl_unfold. rewrite HX. cbn [bind].
     unfold is_eol_or_eof at 1. cbn [ttype]. change (tQUOTED =? tEOL) with false. change (tQUOTED =? tEOF) with false.
-    cbn [orb]. unfold stq in E2. cbn [pend app] in E2. unfold stq. cbn [pend app]. rewrite E2. cbn [bind rev app fst snd].
-    rewrite (txt_strings_ok (s :: ss) (_ :: toks)); [|constructor; [split|]; assumption|constructor; [split; reflexivity|assumption]].
+    cbn [orb]. rewrite E2. cbn [bind rev app fst snd].
+    rewrite (txt_strings_ok_b _ (s :: ss) (_ :: toks) HB HL); [|constructor; [split; reflexivity|exact HF]].
     reflexivity.
 Qed.
 
